@@ -17,7 +17,6 @@ import (
 	"fmt"
 	"os"
 	"runtime"
-	"sort"
 	"strings"
 	"testing"
 	"time"
@@ -210,7 +209,6 @@ func validate(c Case) error {
 type result struct {
 	labels   []string
 	nt       bool
-	ntKey    string
 	excluded int
 }
 
@@ -349,7 +347,7 @@ func runOnce(c Case) (res *result, retry bool, err error) {
 	}
 
 	// classify what was injected during Mutate
-	primaryCommitFault, secondaryCommitFault, anyFault := false, false, false
+	primaryCommitFault, secondaryCommitFault := false, false
 	reachedCommit := false
 	for _, e := range f.events {
 		if e.Who != "writer" {
@@ -359,7 +357,6 @@ func runOnce(c Case) (res *result, retry bool, err error) {
 			reachedCommit = true
 		}
 		if e.Act != ActOK {
-			anyFault = true
 			res.label("writer-fault:" + e.Method + ":" + actNames[e.Act])
 			if e.Method == "commit" {
 				if e.Region == primary.Region {
@@ -384,7 +381,6 @@ func runOnce(c Case) (res *result, retry bool, err error) {
 	if primaryCommitFault || secondaryCommitFault || (len(readerLog) > 0 && reachedCommit) {
 		res.nt = true
 	}
-	_ = anyFault
 
 	// ---- was the primary commit applied?
 	pst, err := f.inspect(primary, c.Start)
@@ -907,15 +903,6 @@ func steer(c *Case) {
 	}
 }
 
-func sortedLabels(m map[string]int) []string {
-	var out []string
-	for k := range m {
-		out = append(out, k)
-	}
-	sort.Strings(out)
-	return out
-}
-
 func TestCheck(t *testing.T) {
 	s := &pbt.Suite{ID: "C28", Level: "fault_enumeration",
 		Rule: "non-trivial = a case in which an injected fault (fail-before-handler, response loss, NotLeader, EpochNotMatch) actually hit the primary-commit RPC or a secondary-commit RPC (i.e. between primary and secondary commit) of the running Mutate; distinct by case content",
@@ -926,8 +913,8 @@ func TestCheck(t *testing.T) {
 			"'visible' is judged through client Get and Scan on fault-free connections and through the commit record of (key, start version) read with percolator.Reader",
 		},
 	}
-	pbt.Add(s, &pbt.Spec[Case]{Name: "faults", Gen: genFaults, Run: run, Quick: 1800, Thorough: 60000, Shards: 12})
-	pbt.Add(s, &pbt.Spec[Case]{Name: "free", Gen: genFree, Run: run, Quick: 600, Thorough: 20000, Shards: 12})
-	pbt.Add(s, &pbt.Spec[Case]{Name: "readers", Gen: genReaders, Run: run, Quick: 1000, Thorough: 40000, Shards: 12})
+	pbt.Add(s, &pbt.Spec[Case]{Name: "faults", Gen: genFaults, Run: run, Quick: 1800, Thorough: 30000, Shards: 12})
+	pbt.Add(s, &pbt.Spec[Case]{Name: "free", Gen: genFree, Run: run, Quick: 600, Thorough: 10000, Shards: 12})
+	pbt.Add(s, &pbt.Spec[Case]{Name: "readers", Gen: genReaders, Run: run, Quick: 1000, Thorough: 20000, Shards: 12})
 	s.Main(t)
 }
